@@ -56,7 +56,7 @@ def do_replay(path: str) -> None:
         time.tzset()
         print(f"host time zone: {rp['tz']}")
     row = x3.call_row(rp["ctor"], rp["args"])
-    shown = ", ".join(f"{a['slot']}={x3.value_of(a)!r}" for a in rp["args"] if a["tag"] != "absent")
+    shown = ", ".join(f"{a['slot']}={x3.show(a)}" for a in rp["args"] if a["tag"] != "absent")
     print(f"Command.{rp['ctor']}({shown})")
     if not row["built"]:
         print(f"  refused: {row['exc']}")
@@ -100,7 +100,7 @@ def main(tier: str, replay: str | None) -> None:
     time.tzset()
     try:
         for i, st in enumerate(states):
-            if any(a["t"] == "dtm" for a in st["args"]):
+            if any(a["t"] in ("dtm", "dtmtxt") for a in st["args"]):
                 twin[len(rows)] = i
                 rows.append(x3.call_row(st["ctor"], [dict(a, l=list(a["l"])) for a in st["args"]]))
     finally:
@@ -164,7 +164,7 @@ def main(tier: str, replay: str | None) -> None:
             r = rows[i]
             sig = _sig(r["args"], defaults[ctor], grp=True)
             key = f"C03{c}:{ctor}:{sig}" + (f":{want}" if c == "c" else "") + (":tz=dst" if r.get("tz") else "")
-            shown = ", ".join(f"{a['slot']}={x3.value_of(a)!r}" for a in r["args"] if a["tag"] != "absent")
+            shown = ", ".join(f"{a['slot']}={x3.show(a)}" for a in r["args"] if a["tag"] != "absent")
             what = (f"{CLAUSE_TEXT[c]}: Command.{ctor}({shown}) -> "
                     + (f"{r['frame']!r}" if r["built"] else f"raises {r['exc']}")
                     + (f"; decoder: {r['dexc']}" if r["built"] and not r["dec"] else "")
@@ -193,7 +193,9 @@ def main(tier: str, replay: str | None) -> None:
         },
         assumptions=[
             "argument classes are representatives (boundaries, grid points a truncating encoder loses, sentinels, out-of-range) - not all values",
-            "'to wire resolution' = equality on the 0.01 grid (temperatures, ratios) / minute or second (datetimes); C04 owns the codec grids",
+            "'to wire resolution' = equality on the 0.01 grid (temperatures, ratios) / minute or second (datetimes; an argument between two "
+            "wire instants may be carried by either of them); C04 owns the codec grids",
+            "a sequence-valued argument is the sequence its container yields (list, tuple, dict view, set, generator, iter(), map())",
             "documented domain (clause d) is read off the constructors' own range checks and docstrings (J6)",
             "a refusal may be any exception; which one is not judged",
             f"calls that take a datetime are made twice: host zone UTC and {DST_TZ}",
